@@ -40,6 +40,7 @@ fn cmd_sim(args: &[String]) -> i32 {
             "storm" => gen::gen_storm(seed, n),
             "nat" => gen::gen_nat(seed, n),
             "codec" => gen::gen_codec(seed, n),
+            "fuzzloop" => gen::gen_fuzzloop(seed, n),
             f => {
                 eprintln!("unknown family {f}");
                 return 2;
@@ -153,6 +154,22 @@ fn cmd_packet(args: &[String]) -> i32 {
             let ev = packetdrv::run_checksums(seed, n, &mut f);
             for i in 0..ev.saturating_sub(1) {
                 stats.push(json!({"id":format!("ck-{i}"),"cell":"ck","shape":format!("{i}"),"delivered":{"genuine":1}}));
+            }
+        }
+        "views" => {
+            packetdrv::install_panic_recorder();
+            let (ev, panics) = packetdrv::run_views(seed, n, &mut f);
+            writeln!(f, "{}", json!({"e":"end","panic":false,"panics":panics})).unwrap();
+            for (ty, _) in packetdrv::VIEW_TYPES {
+                stats.push(json!({"id":format!("view-{ty}"),"cell":ty,"shape":"view","delivered":{"genuine":1},"events":ev}));
+            }
+        }
+        "recv" | "recv_all" => {
+            packetdrv::install_panic_recorder();
+            let (ev, panics) = packetdrv::run_recv(seed, n, family == "recv_all", &mut f);
+            writeln!(f, "{}", json!({"e":"end","panic":false,"panics":panics})).unwrap();
+            for i in 0..ev {
+                stats.push(json!({"id":format!("recv-{i}"),"cell":format!("cfg{i}"),"shape":"recv","delivered":{"genuine":1}}));
             }
         }
         "ext" => {
